@@ -10,6 +10,7 @@ mod c06sim;
 mod c07;
 mod c08;
 mod c08boot;
+mod modtree;
 mod boundary;
 mod c01;
 mod c17;
